@@ -5106,7 +5106,7 @@ def ap3(m, run, rule='AP3.least-squares-fit-is-the-normal-equations-solution'):
     by Eqs. 9.63 - 9.67: first / last control point = first / last data point, interior ones solve (N^T N) P = R with R_j = sum_k N_j(u_k)
     (Q_k - N_0(u_k) Q_0 - N_n(u_k) Q_m); for a surface that curve fit applied along u to every data column and then along v to every row
     of the intermediate net (the two passes commute), stored at v + size_v * u.  Degree, knot vector, parameter and sizes of each
-    direction must reach the helpers and the result together.  The identity is exact in the data points and for the two stand-in tables -
+    direction must reach the helpers and the result together, and the centripetal option must reach the parametrisation.  The identity is exact in the data points and for the two stand-in tables -
     a polynomial identity test in the basis values, not a symbolic proof in them"""
     from fractions import Fraction as F
     from .skel import Sym
@@ -5181,16 +5181,19 @@ def ap3(m, run, rule='AP3.least-squares-fit-is-the-normal-equations-solution'):
         N = table(g)
         # ---------------------------------------------------------------- curve
         fc = m.func('fitting.approximate_curve')
-        for s_, c_, p_ in ((6, 4, 2), (5, 3, 1), (7, 5, 3)):
+        for s_, c_, p_, cent in ((6, 4, 2, False), (5, 3, 1, True), (7, 5, 3, False), (6, 4, 2, True)):
             ncase_c += 1
             Q = [[Poly.atom('Q%d_%d' % (k, x)) for x in range(dim)] for k in range(s_)]
             P = [[Sym(a) for a in r] for r in Q]
             uk = [L('u', k) for k in range(s_)]
             kvs, shapes = {}, []
 
-            def cpc(sk, node, points, *a, **k):
+            def cpc(sk, node, points, *a, _cent=cent, **k):
                 if points is not P:
                     raise Violation('AP3', 'compute_params_curve is not given the data points', node)
+                got_c = a[0] if a else k.get('centripetal', False)
+                if bool(got_c) is not _cent:
+                    raise Violation('AP3', 'compute_params_curve is called with centripetal=%r although the fit was asked with centripetal=%r: the fit is not the least-squares solution at the requested parameters' % (got_c, _cent), node)
                 return uk
 
             def ckv2(sk, node, degree, nd, nc, params, _uk=uk):
@@ -5216,7 +5219,7 @@ def ap3(m, run, rule='AP3.least-squares-fit-is-the-normal-equations-solution'):
             sk.exact = True
             why = None
             try:
-                out = sk.call(fc, [P, p_], {'ctrlpts_size': c_})
+                out = sk.call(fc, [P, p_], {'ctrlpts_size': c_, 'centripetal': cent} if cent else {'ctrlpts_size': c_})
                 if not isinstance(out, Bag):
                     why = 'does not return a curve'
                 else:
@@ -5229,19 +5232,22 @@ def ap3(m, run, rule='AP3.least-squares-fit-is-the-normal-equations-solution'):
             except Unsupported as ex:
                 raise AnalysisError('%s: interpreter met an unsupported construct: %s' % (fc.key, ex))
             if why:
-                bad_c.append(('%d data points, %d control points, degree %d, table %d' % (s_, c_, p_, g), why))
+                bad_c.append(('%d data points, %d control points, degree %d%s, table %d' % (s_, c_, p_, ', centripetal' if cent else '', g), why))
         # ---------------------------------------------------------------- surface
         fs = m.func('fitting.approximate_surface')
-        for (su, sv), (cu, cv), (pu, pv) in (((5, 4), (4, 3), (2, 1)), ((4, 6), (3, 4), (1, 2))):
+        for (su, sv), (cu, cv), (pu, pv), cent in (((5, 4), (4, 3), (2, 1), False), ((4, 6), (3, 4), (1, 2), True)):
             ncase_s += 1
             Q = [[[Poly.atom('Q%d_%d_%d' % (i, j, x)) for x in range(dim)] for j in range(sv)] for i in range(su)]
             P = [[Sym(a) for a in Q[i // sv][i % sv]] for i in range(su * sv)]
             uk, vl = [L('u', k) for k in range(su)], [L('v', k) for k in range(sv)]
             kvs, made = {}, []
 
-            def cps(sk, node, points, a, b, *r, **k):
+            def cps(sk, node, points, a, b, *r, _cent=cent, **k):
                 if points is not P or (a, b) != (su, sv):
                     raise Violation('AP3', 'compute_params_surface is called with sizes (%r, %r); the data grid is %d x %d' % (a, b, su, sv), node)
+                got_c = r[0] if r else k.get('centripetal', False)
+                if bool(got_c) is not _cent:
+                    raise Violation('AP3', 'compute_params_surface is called with centripetal=%r although the fit was asked with centripetal=%r' % (got_c, _cent), node)
                 return uk, vl
 
             def ckv2(sk, node, degree, nd, nc, params, _uk=uk, _vl=vl):
@@ -5272,7 +5278,7 @@ def ap3(m, run, rule='AP3.least-squares-fit-is-the-normal-equations-solution'):
             sk.exact = True
             why = None
             try:
-                out = sk.call(fs, [P, su, sv, pu, pv], {'ctrlpts_size_u': cu, 'ctrlpts_size_v': cv})
+                out = sk.call(fs, [P, su, sv, pu, pv], dict({'ctrlpts_size_u': cu, 'ctrlpts_size_v': cv}, **({'centripetal': True} if cent else {})))
                 if not isinstance(out, Bag):
                     why = 'does not return a surface'
                 else:
@@ -5290,7 +5296,7 @@ def ap3(m, run, rule='AP3.least-squares-fit-is-the-normal-equations-solution'):
             except Unsupported as ex:
                 raise AnalysisError('%s: interpreter met an unsupported construct: %s' % (fs.key, ex))
             if why:
-                bad_s.append(('%d x %d data points, %d x %d control points, degrees (%d, %d), table %d' % (su, sv, cu, cv, pu, pv, g), why))
+                bad_s.append(('%d x %d data points, %d x %d control points, degrees (%d, %d)%s, table %d' % (su, sv, cu, cv, pu, pv, ', centripetal' if cent else '', g), why))
     for fi_, bad, n_ in ((m.func('fitting.approximate_curve'), bad_c, ncase_c), (m.func('fitting.approximate_surface'), bad_s, ncase_s)):
         run.ob(rule, '%s :: %d cases' % (fi_.key, n_), not bad, 'the control points are the solution of Eqs. 9.63 - 9.67, exactly in the data points' if not bad else
                '%s: %s   [%d of %d cases]' % (bad[0][0], bad[0][1], len(bad), n_), 'geomdl/fitting.py:%d in %s' % (fi_.node.lineno, fi_.key))
